@@ -21,6 +21,18 @@ PP_KINDS = {
 WS = L.iv_chars(' \t\n\r')
 
 
+# pyparsing_common elements as regular expressions (identchars / identbodychars are the Latin-1 identifier sets)
+_IDSTART = 'A-Za-z_\u00aa\u00b5\u00ba\u00c0-\u00d6\u00d8-\u00f6\u00f8-\u00ff'
+_IDBODY = _IDSTART + '0-9\u00b7'
+LIBRARY_ELEMENTS = {
+    'pyparsing_common.identifier': '[%s][%s]*' % (_IDSTART, _IDBODY),
+    'pyparsing.pyparsing_common.identifier': '[%s][%s]*' % (_IDSTART, _IDBODY),
+    'pyparsing_common.integer': '[0-9]+',
+    'pyparsing_common.signed_integer': '[+-]?[0-9]+',
+    'pyparsing_common.hex_integer': '[0-9a-fA-F]+',
+}
+
+
 class GNode(object):
     _ids = 0
 
@@ -233,6 +245,13 @@ class Grammar(object):
         if isinstance(e, ast.Call):
             return self._call(e, env)
         if isinstance(e, ast.Attribute):
+            lib = LIBRARY_ELEMENTS.get(norm(e))
+            if lib is not None:
+                # a ready-made element of the pyparsing library: modelled by the regular expression of its Word(...)
+                # definition (library fact, pyparsing 3.x)
+                self.nodes += 1
+                return GNode('Regex', data={'pattern': lib, 'flags': 0, 'library': norm(e)}, lineno=getattr(e, 'lineno', None),
+                             mod=self.modname)
             return self.model.fold(self.modname, e)
         if isinstance(e, (ast.ListComp, ast.GeneratorExp, ast.JoinedStr)):
             return self.model.fold(self.modname, e)
